@@ -180,17 +180,17 @@ def r42(ctx):
                              sinks=sinks)
 
 
-def _passthrough(ctx, b, callee, want, key):
+def _passthrough(ctx, b, callee, want, key, rid="R4.3"):
     """the info builder hands its parameters, unmodified, to `callee` in the stated roles"""
     fv = fnview(ctx, b, policy=False)
     sites = [(bi, c) for bi, c in b.calls() if c.callee and c.callee.name == callee]
-    ctx.ob("R4.3", len(sites) == 1, f"{b.name}/{key}/single-call", f"{len(sites)} calls of {callee}", where=f"{b.file}:{b.line}")
+    ctx.ob(rid, len(sites) == 1, f"{b.name}/{key}/single-call", f"{len(sites)} calls of {callee}", where=f"{b.file}:{b.line}")
     for bi, c in sites:
         got = []
         for a in c.args:
             e = fv.expr(a)
             got.append(e[1] if e[0] in ("param", "k") else render(e)[:60])
-        ctx.ob("R4.3", got == want, f"{b.name}/{key}/roles",
+        ctx.ob(rid, got == want, f"{b.name}/{key}/roles",
                f"`{b.name}` passes {got} to {callee.rsplit('::', 2)[-2]}::new (expected {want}): the content that is validated and "
                f"recorded is not the content the caller supplied", where=f"{b.file}:{c.line}", sample=got)
     # none of the forwarded parameters is modified on the way (retain / truncate / push ... need a &mut borrow);
@@ -201,7 +201,7 @@ def _passthrough(ctx, b, callee, want, key):
             bad = sorted(_mutators(fv, nm) - SORT_ONLY) if (fv._mut_borrowed(l) or fv._mut_partial(l)) else []
             if (fv._mut_borrowed(l) or fv._mut_partial(l)) and not _mutators(fv, nm):
                 bad = ["<direct write>"]
-            ctx.ob("R4.3", not bad, f"{b.name}/{key}/unmodified/{nm}",
+            ctx.ob(rid, not bad, f"{b.name}/{key}/unmodified/{nm}",
                    f"`{b.name}` modifies its parameter `{nm}` ({bad}) before building the validated content: what is validated and "
                    f"recorded differs from what the caller supplied (and may sign)", where=f"{b.file}:{b.line}", sample=f"{nm} forwarded unmodified")
 
@@ -221,14 +221,17 @@ def _mutators(fv, pname):
     return out
 
 
-def r43(ctx):
-    ctx.rule("R4.3", "validated values and signed values trace to the same parameters slot by slot")
+def content_passthrough(ctx, rid="R4.3"):
+    """the commitment content that the validator sees, that is recorded in the enforcement state and that every later
+    check reads (HTLC lists, balances, feerate) is exactly what the caller supplied: the two info builders forward their
+    parameters unmodified and CommitmentInfo2::new only sorts the lists.  Shared by C04 (what is signed), C05 (bounds are
+    checked on every HTLC), C06 (in-flight sums) and C07 (no HTLC pending)."""
     p = ctx.prog
     NEW = LS + "tx::tx::CommitmentInfo2::new"
     _passthrough(ctx, p.fn(f"{CH}::build_counterparty_commitment_info"), NEW,
-                 ["true", "to_holder_value_sat", "to_counterparty_value_sat", "offered_htlcs", "received_htlcs", "feerate_per_kw"], "info")
+                 ["true", "to_holder_value_sat", "to_counterparty_value_sat", "offered_htlcs", "received_htlcs", "feerate_per_kw"], "info", rid=rid)
     _passthrough(ctx, p.fn(f"{CH}::build_holder_commitment_info"), NEW,
-                 ["false", "to_counterparty_value_sat", "to_holder_value_sat", "offered_htlcs", "received_htlcs", "feerate_per_kw"], "info")
+                 ["false", "to_counterparty_value_sat", "to_holder_value_sat", "offered_htlcs", "received_htlcs", "feerate_per_kw"], "info", rid=rid)
     # CommitmentInfo2::new: fields from the same-named parameters; the lists are only sorted
     nb = p.fn(NEW)
     nv = fnview(ctx, nb, policy=False)
@@ -237,14 +240,20 @@ def r43(ctx):
             continue
         for fname, op in zip(st.rv.a[3], st.rv.ops):
             e = peel(nv.expr(op))
-            ctx.ob("R4.3", e[0] == "param" and e[1] == fname, f"{nb.name}/field/{fname}", f"CommitmentInfo2.{fname} <- `{render(e)[:60]}`",
+            ctx.ob(rid, e[0] == "param" and e[1] == fname, f"{nb.name}/field/{fname}", f"CommitmentInfo2.{fname} <- `{render(e)[:60]}`",
                    where=f"{nb.file}:{st.line}", sample=f"{fname} <- {fname}")
     mut_calls = set()
     for l in range(1, nb.argc + 1):
         mut_calls |= _mutators(nv, nb.local_name(l))
     allowed = SORT_ONLY
-    ctx.ob("R4.3", mut_calls <= allowed, f"{nb.name}/only-sorts", f"CommitmentInfo2::new applies {sorted(mut_calls - allowed)} to its lists",
+    ctx.ob(rid, mut_calls <= allowed, f"{nb.name}/only-sorts", f"CommitmentInfo2::new applies {sorted(mut_calls - allowed)} to its lists",
            where=f"{nb.file}:{nb.line}", sample=sorted(mut_calls))
+
+
+def r43(ctx):
+    ctx.rule("R4.3", "validated values and signed values trace to the same parameters slot by slot")
+    content_passthrough(ctx, "R4.3")
+    p = ctx.prog
     # semantic counterparty entry
     b = p.fn(f"{CH}::sign_counterparty_commitment_tx_phase2")
     fv = fnview(ctx, b)
